@@ -18,7 +18,9 @@ list files, signature files, database directories) and derives from its own stru
 Kinds:  cli (above; with --square the run is repeated with the queries supplied on both sides and the
 two CSV files must be equal), fmt (format(np.float32, '0.4f') against op 1602 / 1611 and Fraction),
 dump (gambit.cluster.dump_dmat_csv on arbitrary float32 matrices and ids, including length mismatches),
-label (gambit.cli.common.get_file_id against op 1603).
+label (gambit.cli.common.get_file_id against op 1603), ids (get_sequence_files call forms), and the two
+sequence kinds of the state and aliasing audit (table at the end of this text): cliseq (a script of commands
+over one pool of files, run in one fresh process) and libseq (a script of library calls over one pool of objects).
 
 A difference between the CSV and the expected table is a violation with the case as replay.  A
 difference between model and implementation that leaves the expected table intact (error class of a
@@ -62,6 +64,8 @@ i.e. the whole CSV against the expected table, is checked there; "+" = added by 
   gambit.cli.common.get_file_id(str)                                   label                                      P
   + get_file_id(Path / PurePath), get_sequence_files(explicit as str / Path / tuple, listfile as open file / path,
     listfile_dir as str / Path)                                        ids-forms (label oracle only, no Coq model) P
+  + the same sources / files / objects in SEVERAL calls (roles swapped, two databases, two directories, other -k/-p, a file
+    rewritten, failing calls in between, repeats, a second thread)     cliseq, libseq (table "State and aliasing" below)  P
 Not driven (stated, not hidden): FASTA content classes (several records, line ends; C01/C06/C13 -- every file here holds
 one record with N runs and lower case), other accepted names of the database files (C04), k-mer parameter mismatches
 between the sources (C14), non-UTF-8 file names, corner= / fmt= of dump_dmat_csv (not used by the command).
@@ -74,7 +78,67 @@ repo_fixes/C16-dup-int-ids.diff): when the ids of a signature file or of the dat
 occurred twice, `gambit dist` died with
     TypeError: sequence item 0: expected str instance, numpy.int64 found
 in gambit/cli/common.py warn_duplicate_file_ids (', '.join(duplicates)); with repeated string ids it printed the
-warning and wrote the matrix.  The stream keeps generating the input and it is judged like every other case."""
+warning and wrote the matrix.  The stream keeps generating the input and it is judged like every other case.
+
+State and aliasing (audit of what can outlive ONE call).  Columns: R = reused across >= 2 calls whose other arguments differ
+(other collection / size / parameters / role), in both orders;  U = checked unmodified after every call;  F = a call that fails
+part-way is interleaved and a good call on the same objects follows;  D = the same call twice must give the same result;
+T = also called from a second thread (started and joined: calls never overlap -- no entry point is advertised as safe for
+concurrent use; the command forks its own worker processes from the process the earlier steps ran in).
+"+" added by this audit, "x" was there before, "-" not applicable / not judged (reason given), "." not driven.
+
+  entry point / object that outlives the call                                                      R U F D T  stream
+  -- gambit dist (click.testing.CliRunner on gambit.cli.cli; python -m gambit) -----------------------------------------------
+  module globals of gambit.cli.dist / gambit.cli.common / gambit.metric / gambit.cluster (a memo of
+    parsed files or of opened signature files, remembered parameters), class attributes of CLIContext,
+    DEFAULT_KMERSPEC (the one shared default object), the click Group / Command objects, the OpenMP
+    thread count set by -c (process-wide, never reset)                                             + - + + +  cliseq
+  the input FILES (FASTA, list file, signature file, database directory): one source as queries and
+    as references; one query set against two databases of different size, and back; one list file
+    against two directories holding the same names; files with the same derived label; signature
+    files with ids in common; sha1 of every file below the pool before / after each step (a file that
+    appears or disappears counts)                                                                  + + + + +  cliseq
+  a FASTA file that gets another content between two runs (a cache keyed by path alone)            + . + . .  cliseq (rewrite)
+  the output file: the table of an earlier run of another shape is in place, made longer (the output
+    is documented to be replaced)                                                                  + - + + .  cliseq; x cli-variants (stale)
+  signature files the command leaves open (load_signatures without close)                          + + + . .  cliseq
+  state after a FAILING command: list entry missing in the middle, gzip FASTA truncated in the middle
+    of the -q / -r files (either side), truncated signature file, -k/-p contradicting a signature file
+    (fails after both sides were loaded), two options of one group, output directory missing (fails at
+    the very end, after everything was computed); the failing step is the twin of the good step that
+    follows with other -k/-p or an older file content; its own outcome is not judged (a table written
+    by it is a broken tie)                                                                         + + + . +  cliseq
+  a cliseq script runs in ONE process forked from a server that has imported gambit and run nothing, so a violation found
+  in a campaign is reproduced by replaying that script alone.  The cli streams keep running all their cases in the harness
+  process (what one case leaves behind reaches the next, as before; a single-case replay cannot show such a leak).
+  -- jaccarddist_matrix / jaccarddist_pairwise as dist_cmd calls them --------------------------------------------------------
+  queries / refs: plain list, tuple, SignatureList, SignatureArray (values, bounds), HDF5Signatures of
+    a file that stays OPEN over the script (as in dist_cmd); narrow / wide / signed value types; one
+    collection as queries and as references, against collections of other sizes (0..5), both orders;
+    observables: per signature dtype + bytes, values / bounds, k-mer parameters, own ids           + + + + +  libseq
+  out= (DOCUMENTED to be written and returned): a fresh buffer, and ONE buffer per shape handed over
+    again and again; must hold the new matrix and be what is returned                              + - + + +  libseq
+  the matrix RETURNED with out=None must not alias hidden state: every earlier result is compared
+    with its bytes at return after every later step                                                + + + + +  libseq
+  chunksize                                                                                        . - . . .  libseq (rare)
+  ref_indices / indices / flat: not used by dist_cmd                                               - - - - -  (C05, C20)
+  failing calls: a float64 array in the middle of the queries (ValueError part-way, out= half
+    written: not judged), out= of the wrong shape                                                  . + + . +  libseq
+  -- dump_dmat_csv -----------------------------------------------------------------------------------------------------------
+  dmat; row_ids / col_ids as list, tuple, NumPy object / 'U' arrays, the .ids array of the open
+    signature file; ONE object as row and column ids (what --square hands over)                    + + + + +  libseq; + dump, dump-forms (U)
+  destination: one path written again and again (replaced); ONE StringIO and ONE open text file for
+    the whole script (appended to; must still be open: the caller closes it)                       + + + . +  libseq; + dump-forms (open)
+  failing calls: one row id too many (ValueError after the rows were written), row ids from a
+    container of the caller that raises part-way                                                   . + + . +  libseq
+  -- get_sequence_files / get_file_id -----------------------------------------------------------------------------------------
+  explicit: list of str / list of Path / tuple handed over again; the lists RETURNED are reversed,
+    extended and emptied by the harness after every call (a later call must not hand them back)    + + . + +  libseq (seqfiles); + ids (U)
+  listfile as an open text file: consumed by reading (file semantics, not judged); as a path       - - - x -  ids
+  -- format(np.float32, '0.4f'), get_file_id(str): pure functions of immutable arguments             - - - x -  fmt, label
+Not judged: what a failing call leaves in the output file or in out=; thread SAFETY (overlapping calls); state kept on disk
+outside the pool directory (a cache below $HOME or the temporary directory escapes the file check, not the table check).
+"""
 import csv
 import gzip
 import os
@@ -97,21 +161,36 @@ RULE = ('cli: (genomes, way of supplying queries x way of supplying references, 
         'paths, stale output file, compression contrary to the name, wider / signed value dtypes and other id arrays in signature files, '
         'k up to 32, prefix case, many workers); cli-duplicate-labels; cli-empty-sides (trivial by the rule above, still judged); cli-many '
         '(12..30 on a side); cli-process (python -m gambit); dump-forms = dump with other memory layouts / id containers / destinations; '
-        'ids: list of paths + call form of get_sequence_files / get_file_id -> labels; non-trivial: >=2 paths, one with directory and extension')
+        'ids: list of paths + call form of get_sequence_files / get_file_id -> labels; non-trivial: >=2 paths, one with directory and extension.  '
+        'sequence streams (state and aliasing): cliseq = (pool of FASTA files in two directories, list files, signature files, databases, two '
+        'k-mer parameter sets; script of 2..6 gambit dist commands over the pool, some built to fail, some after a file was rewritten, some in a '
+        'second thread / as a real process) -> per good step the CSV table, judged as in kind cli, + input files unchanged + same command, same '
+        'table; the whole script runs in one fresh process; non-trivial: >=2 good steps with a non-trivial table.  libseq = (pool of signature '
+        'collections in five container forms with id containers, path lists; script of 2..6 calls jaccarddist_matrix / jaccarddist_pairwise + '
+        'dump_dmat_csv, get_sequence_files, some built to fail) -> per good step bit patterns of the matrix and the CSV table (op 1605 on the same), '
+        '+ caller objects unmodified + earlier results unchanged + same call, same result; non-trivial: >=2 good steps, a collection with >=2 signatures')
 TRUSTED = ['csv module: csv.reader(csv.writer(rows)) returns the rows (labels with commas, quotes, CR, LF included); the '
            'table is compared after parsing, quoting is not modelled',
            'click option parsing / pathlib: `-q PATH` reaches dist_cmd as Path(PATH), whose last component is that of PATH',
            'h5py / load_signatures return the ids and signatures that were stored (C12), calc_file_signatures returns the '
            'signatures of the files in order (C13), FASTA parsing (C01/C06): files enter the model as the genome they hold',
            'np.float32.__format__ = float.__format__ of the exactly converted double (modelled by fmt4, sampled by kind fmt)',
-           'harness: pure-Python reference signatures, Fraction rounding oracle, builders of list files / signature files / databases']
+           'harness: pure-Python reference signatures, Fraction rounding oracle, builders of list files / signature files / databases',
+           'sequence streams: multiprocessing fork server (a cliseq script runs in a child forked from a server that imported gambit and ran '
+           'nothing; the child resets the start method to the default of a plain process so that the command forks its workers as usual); '
+           'sha1 of the files below the pool directory as the observable of "inputs unmodified"; ndarray.tobytes() / dtype / shape and repr of '
+           'the ids as the observables of "caller objects unmodified"']
 ASSUMPTIONS = ['the distance kernel is an oracle d(genome, genome) returning binary32 bit patterns (C02/C05); the harness '
                'takes it from gambit.metric.jaccarddist on its own reference signatures',
                'C16_square_both_sides assumes d symmetric with d(x,x)=+0.0 on the query genomes (C15); checked on every '
                'square case',
                'k-mer parameter mismatches between sources are C14 and not generated here',
                'labels do not contain NUL; list-file entries do not contain line breaks or leading/trailing white space '
-               '(a list file cannot express them)']
+               '(a list file cannot express them)',
+               'sequence streams: calls of one script never overlap in time (second-thread steps are joined before the next step); an out= '
+               'buffer is documented to be overwritten and is judged so; what a failing call leaves in the output file / out= is not judged; '
+               'a cliseq script starts in a process that has run no command (state left by OTHER scripts is seen only by the in-process cli '
+               'streams, whose single-case replays cannot show it)']
 BATCH = 15
 SHRINK = False
 
@@ -500,10 +579,11 @@ def _read_csv(out):
 		return ('unreadable', f'{type(e).__name__}: {e}')
 
 
-def run_cli(args, out, env=None, cwd=None, proc=False, stale=False):
-	"""run `gambit ARGS` (in process through click's CliRunner, or as a real process) and read the CSV it wrote"""
+def run_cli(args, out, env=None, cwd=None, proc=False, stale=False, keep=False):
+	"""run `gambit ARGS` (in process through click's CliRunner, or as a real process) and read the CSV it wrote; keep: an
+	output file that exists is left where it is (command sequences)"""
 	outp = os.path.join(cwd, out) if cwd and not os.path.isabs(out) else out
-	if os.path.exists(outp):
+	if os.path.exists(outp) and not keep:
 		os.remove(outp)
 	if stale:
 		with open(outp, 'w') as f:
@@ -786,13 +866,13 @@ def k_dump(ctx, cases):
 		out = os.path.join(wd, f'd{i}.csv')
 		form = c.get('form') or {}
 		try:
+			obs = _dump_form(dump_dmat_csv, out, m, c['rows'], c['cols'], form)
 			if form:
-				obs = _dump_form(dump_dmat_csv, out, m, c['rows'], c['cols'], form)
 				ctx.count('dump:layout=' + form.get('layout', 'C'))
-			else:
-				dump_dmat_csv(out, m, c['rows'], c['cols'])
-				with open(out, newline='', encoding='utf-8') as f:
-					obs = ('ok', [row for row in csv.reader(f)])
+		except CallerObjectChanged as e:
+			ctx.case(c, nontrivial=nr >= 2 and nc >= 2)
+			ctx.violation('dump', c, f'dump_dmat_csv changed an object of its caller: {e}')
+			continue
 		except ValueError:
 			obs = ('shape',)
 		if len(c['rows']) != nr:
@@ -812,6 +892,10 @@ def k_dump(ctx, cases):
 			mod = ('ok', [[from_cp(x) for x in row] for row in a[1]]) if a[0] == 0 else (ERR.get(a[1]),)
 			if mod != obs:
 				ctx.broke('correspondence dump (model of dump_dmat_csv != implementation)', f'case {c}: model={str(mod)[:300]} impl={str(obs)[:300]}')
+
+
+class CallerObjectChanged(Exception):
+	"""a call changed an object that belongs to its caller"""
 
 
 def _dump_form(dump_dmat_csv, out, m, rows, cols, form):
@@ -851,20 +935,39 @@ def _dump_form(dump_dmat_csv, out, m, rows, cols, form):
 			return [int(x) for x in l]
 		return list(l)
 	r, c = ids(rows, form.get('rows', 'list')), ids(cols, form.get('cols', 'list'))
+	if form.get('alias') and list(rows) == list(cols) and form.get('rows', 'list') == form.get('cols', 'list'):
+		c = r                                             # ONE object as row and column ids, as dist_cmd --square hands it over
 	dest = form.get('file', 'str')
-	if dest == 'path':
-		dump_dmat_csv(pathlib.Path(out), m, r, c)
-	elif dest == 'text':
-		with open(out, 'w', newline='', encoding='utf-8') as f:
+	obs_m = lambda: [np.asarray(x).tobytes() for x in m] if isinstance(m, list) else (m.dtype.str, m.shape, m.strides, m.tobytes())
+	snap = (obs_m(), _obs_ids(r), _obs_ids(c))
+
+	def unchanged():
+		now = (obs_m(), _obs_ids(r), _obs_ids(c))
+		if now != snap:
+			raise CallerObjectChanged(', '.join(n for n, a, b in zip(('the matrix', 'the row ids', 'the column ids'), snap, now) if a != b))
+	try:
+		if dest == 'path':
+			dump_dmat_csv(pathlib.Path(out), m, r, c)
+		elif dest == 'text':
+			with open(out, 'w', newline='', encoding='utf-8') as f:
+				dump_dmat_csv(f, m, r, c)
+				if f.closed:
+					raise CallerObjectChanged('the open file it was given is closed')
+		elif dest == 'stringio':
+			f = io.StringIO(newline='')
 			dump_dmat_csv(f, m, r, c)
-	elif dest == 'stringio':
-		f = io.StringIO(newline='')
-		dump_dmat_csv(f, m, r, c)
-		return ('ok', [row for row in csv.reader(io.StringIO(f.getvalue(), newline=''))])
-	elif dest == 'kw':
-		dump_dmat_csv(file=out, dmat=m, row_ids=r, col_ids=c)
-	else:
-		dump_dmat_csv(out, m, r, c)
+			if f.closed:
+				raise CallerObjectChanged('the StringIO it was given is closed')
+			unchanged()
+			return ('ok', [row for row in csv.reader(io.StringIO(f.getvalue(), newline=''))])
+		elif dest == 'kw':
+			dump_dmat_csv(file=out, dmat=m, row_ids=r, col_ids=c)
+		else:
+			dump_dmat_csv(out, m, r, c)
+	except ValueError:
+		unchanged()
+		raise
+	unchanged()
 	with open(out, newline='', encoding='utf-8') as f:
 		return ('ok', [row for row in csv.reader(f)])
 
@@ -880,9 +983,17 @@ def k_ids(ctx, cases):
 		paths, form = c['paths'], c['form']
 		exp = [py_label(p) for p in paths]
 		if form == 'explicit-str':
-			got = get_sequence_files(list(paths))[0]
+			arg = list(paths)
+			got = get_sequence_files(arg)[0]
+			if arg != paths:
+				ctx.violation('ids', c, f'get_sequence_files changed the list of paths it was given: {arg!r}', impl=arg, spec=paths)
+				continue
 		elif form == 'explicit-path':
-			got = get_sequence_files([pathlib.Path(p) for p in paths], None, None)[0]
+			arg = [pathlib.Path(p) for p in paths]
+			got = get_sequence_files(arg, None, None)[0]
+			if arg != [pathlib.Path(p) for p in paths] or any(type(a) is not type(pathlib.Path('x')) for a in arg):
+				ctx.violation('ids', c, f'get_sequence_files changed the list of paths it was given: {arg!r}', impl=[str(a) for a in arg], spec=paths)
+				continue
 		elif form == 'explicit-tuple':
 			got = get_sequence_files(explicit=tuple(paths), listfile=None, listfile_dir='.')[0]
 		elif form == 'file-id-path':
@@ -919,7 +1030,666 @@ def k_label(ctx, cases):
 			ctx.broke('correspondence label (model get_file_id != implementation)', f'{p!r}: model={from_cp(ans[i])!r} impl={impl!r}')
 
 
-KINDS = {'cli': k_cli, 'fmt': k_fmt, 'dump': k_dump, 'label': k_label, 'ids': k_ids}
+# ------------------------------------------------------------------------------------------------
+# state and aliasing: sequences of calls over shared objects (kinds cliseq, libseq)
+# ------------------------------------------------------------------------------------------------
+
+SEQ_LEFTOVER = 'left,over,"from an earlier run"\n' * 40
+KS_PAIRS = [[[5, 'AC'], [5, 'TTA']], [[6, 'AT'], [5, 'AT']], [[6, 'AT'], [6, 'TA']], [[7, 'ATG'], [8, 'GA']],
+            [[11, 'ATGAC'], [6, 'AT']], [[5, 'AT'], [11, 'ATGAC']], [[11, 'ATGAC'], [11, 'ATGAA']]]
+CLI_BAD = ('missing', 'truncgz', 'truncsigs', 'kspec', 'usage', 'outdir')
+LIB_BAD = ('baddtype', 'badout', 'badids', 'raiseiter')
+
+
+def _in_thread(fn):
+	"""run fn() in a second thread (started and joined: calls never overlap) and hand back its result / exception"""
+	import threading
+	box = {}
+
+	def run():
+		try:
+			box['r'] = fn()
+		except BaseException as e:      # handed to the caller
+			box['e'] = e
+	t = threading.Thread(target=run)
+	t.start()
+	t.join()
+	if 'e' in box:
+		raise box['e']
+	return box['r']
+
+
+def _tree_digest(wd, skip=()):
+	"""{path relative to wd: sha1 of the content} of every file below wd, except the top-level names in skip"""
+	import hashlib
+	out = {}
+	for root, dirs, fs in os.walk(wd):
+		if root == wd:
+			dirs[:] = [d for d in dirs if d not in skip]
+		for fn in fs:
+			if root == wd and fn in skip:
+				continue
+			p = os.path.join(root, fn)
+			with open(p, 'rb') as f:
+				out[os.path.relpath(p, wd)] = hashlib.sha1(f.read()).hexdigest()
+	return out
+
+
+def _digest_diff(a, b):
+	return ', '.join([f'{k} changed' for k in sorted(a) if k in b and a[k] != b[k]] + [f'{k} removed' for k in sorted(set(a) - set(b))] +
+	                 [f'{k} appeared' for k in sorted(set(b) - set(a))])
+
+
+def seq_build(case, wd):
+	"""the pool of a command sequence below wd: FASTA files p/REL (and p2/REL: the same names, other contents), list files
+	l<i>.txt (entries relative to p or p2), signature files s<i>.gs, database directories db<i>, and the broken inputs of the
+	failing steps (bad-*).  A source is ['files', [i..]] | ['list', i] | ['list', i, 1] (read against p2) | ['sigs', i] | ['db', i] |
+	['square']"""
+	import io
+	genomes = case['genomes']
+	os.makedirs(os.path.join(wd, 'p'), exist_ok=True)
+	for n, (rel, g) in enumerate(case['files']):
+		_write_fasta(os.path.join(wd, 'p', rel), genome_seq(genomes[g]), rel.endswith('.gz'))
+		if case.get('dir2'):
+			# a second directory with the same names and other contents (a list file read against either)
+			_write_fasta(os.path.join(wd, 'p2', rel), genome_seq(genomes[case['dir2'][n]]), rel.endswith('.gz'))
+	for i, l in enumerate(case['lists']):
+		with open(os.path.join(wd, f'l{i}.txt'), 'w', newline='', encoding='utf-8') as f:
+			f.write(l['text'])
+		lines = py_lines(l['text'])
+		h = (len(lines) + 1) // 2
+		with open(os.path.join(wd, f'bad-l{i}.txt'), 'w', encoding='utf-8') as f:
+			f.write('\n'.join(lines[:h] + ['no-such-file.fa'] + lines[h:]) + '\n')
+	for i, s in enumerate(case['sigs']):
+		k, p = case['kspecs'][s['ks']]
+		path = os.path.join(wd, f's{i}.gs')
+		_write_sigs(path, s['items'], genomes, k, p, s.get('int_ids', False), s.get('dtype'), s.get('idkind'))
+		with open(path, 'rb') as f:
+			data = f.read()
+		with open(os.path.join(wd, f'bad-s{i}.gs'), 'wb') as f:
+			f.write(data[:len(data) * 11 // 20])
+	for i, d in enumerate(case['dbs']):
+		k, p = case['kspecs'][d['ks']]
+		_make_db(os.path.join(wd, f'db{i}'), d['items'], genomes, k, p, d.get('int_ids', False), d.get('dtype'), d.get('idkind'))
+	buf = io.BytesIO()
+	with gzip.GzipFile(fileobj=buf, mode='wb', mtime=0) as f:
+		f.write(('>contig1\n' + genome_seq({'fam': 5, 'len': 3000}) + '\n').encode())
+	with open(os.path.join(wd, 'bad-trunc.fa.gz'), 'wb') as f:
+		f.write(buf.getvalue()[:len(buf.getvalue()) // 2])
+
+
+def seq_step_case(case, step, cur):
+	"""one step as a plain cli case (what py_expected / distances / wire_params understand); cur[i] = the genome pool file i
+	holds now.  -> (case, [kspec number of every signature source in use])"""
+	files = case['files']
+
+	def side(src):
+		if src[0] == 'files':
+			return {'files': [[files[i][0], cur[i]] for i in src[1]]}
+		if src[0] == 'list':
+			held = case['dir2'] if len(src) > 2 and src[2] else cur
+			return {'files': [], 'list': {'text': case['lists'][src[1]]['text'], 'fs': [[rel, held[i]] for i, (rel, _) in enumerate(files)]}}
+		return {'files': [], 'sigs': {'items': case['sigs'][src[1]]['items']}}
+	q, r = step['q'], step['r']
+	c = {'genomes': case['genomes'], 'q': side(q), 'cores': step.get('cores'), 'progress': False}
+	src_ks = [case['sigs'][s[1]]['ks'] for s in (q, r) if s[0] == 'sigs']
+	if r[0] == 'db':
+		c['r'] = {'files': [], 'db': True}
+		c['dbdir'] = {'items': case['dbs'][r[1]]['items']}
+		src_ks.append(case['dbs'][r[1]]['ks'])
+	elif r[0] == 'square':
+		c['r'] = {'files': [], 'square': True}
+	else:
+		c['r'] = side(r)
+	ks = step.get('ks')
+	eff = ks if ks is not None else (src_ks[0] if src_ks else None)
+	c['kopt'] = ks is not None
+	c['k'], c['prefix'] = case['kspecs'][eff] if eff is not None else DEFAULT_KSPEC
+	return c, src_ks
+
+
+def seq_command(case, step, wd):
+	"""-> (args, out): the command line of a step over the pool below wd; step['bad'] breaks it in one way"""
+	bad = step.get('bad')
+	q, r = step['q'], step['r']
+	usable = {'missing': 'list' in (q[0], r[0]), 'truncgz': 'files' in (q[0], r[0]), 'truncsigs': 'sigs' in (q[0], r[0]),
+	          'kspec': 'sigs' in (q[0], r[0]) or r[0] == 'db', 'usage': True, 'outdir': True}
+	if bad and not usable.get(bad):
+		bad = 'outdir'
+	done = []
+	other = {'q': r, 'r': q}
+	need = {'truncgz': 'files', 'missing': 'list', 'truncsigs': 'sigs'}.get(bad)
+
+	def src_args(src, which):
+		if need and not done and step.get('badside', which) != which and other[which][0] == need:
+			return src_args_(src, which, False)       # the other side is the one to break
+		return src_args_(src, which, True)
+
+	def src_args_(src, which, may):
+		if src[0] == 'files':
+			a = [['-' + which, os.path.join(wd, 'p', case['files'][i][0])] for i in src[1]]
+			if bad == 'truncgz' and may and not done:
+				done.append(1)
+				a.insert((len(a) + 1) // 2, ['-' + which, os.path.join(wd, 'bad-trunc.fa.gz')])
+			return [t for g in a for t in g]
+		if src[0] == 'list':
+			name = f'l{src[1]}.txt'
+			if bad == 'missing' and may and not done:
+				done.append(1)
+				name = 'bad-' + name
+			return [f'--{which}l', os.path.join(wd, name), f'--{which}dir', os.path.join(wd, 'p2' if len(src) > 2 and src[2] else 'p')]
+		if src[0] == 'sigs':
+			name = f's{src[1]}.gs'
+			if bad == 'truncsigs' and may and not done:
+				done.append(1)
+				name = 'bad-' + name
+			return [f'--{which}s', os.path.join(wd, name)]
+		return ['-d'] if src[0] == 'db' else ['-s']
+	out = os.path.join(wd, 'nodir', 'out.csv') if bad == 'outdir' else os.path.join(wd, f'out{step.get("out", 0)}.csv')
+	args = (['-d', os.path.join(wd, f'db{r[1]}')] if r[0] == 'db' else []) + ['dist', '-o', out, '--no-progress']
+	ks = step.get('ks')
+	if bad == 'kspec':
+		ks = 1 - seq_step_case(case, step, [g for _, g in case['files']])[1][0]
+	if ks is not None:
+		args += ['-k', str(case['kspecs'][ks][0]), '-p', case['kspecs'][ks][1]]
+	if step.get('cores') is not None:
+		args += ['-c', str(step['cores'])]
+	args += src_args(q, 'q') + src_args(r, 'r')
+	if bad == 'usage':
+		args += ['-r', os.path.join(wd, 'p', case['files'][0][0])] if r[0] == 'square' else ['-s']
+	return args, out
+
+
+def _table_nontrivial(exp, square):
+	if exp[0] != 'ok':
+		return False
+	body = exp[1][1:]
+	off = {c for a, row in enumerate(body) for b, c in enumerate(row[1:]) if not (square and a == b)}
+	return len(body) >= 2 and len(exp[1][0]) >= 3 and len(off) >= 2 and (not square or len(body) >= 3)
+
+
+def _model_table(m):
+	return ('ok', [[from_cp(c) for c in row] for row in m[1]]) if m[0] == 0 else (ERR.get(m[1], f'err{m[1]}'),)
+
+
+SEQ_SKIP = ('out0.csv', 'out1.csv', 'nodir')
+
+
+def cliseq_run(case, wd):
+	"""every step of a command sequence over the pool below wd, in order, in the calling process
+	-> [{'obs': table or failure, 'changed': what happened to the input files ('' = nothing), 'args': command line}]"""
+	_S.setdefault('seq', {})
+	_S.setdefault('sig', {})
+	recs = []
+	for step in case['steps']:
+		how = step.get('how', 'cli')
+		if step.get('rewrite'):
+			i, g = step['rewrite']
+			rel = case['files'][i][0]
+			_write_fasta(os.path.join(wd, 'p', rel), genome_seq(case['genomes'][g]), rel.endswith('.gz'))
+		before = _tree_digest(wd, SEQ_SKIP)
+		args, out = seq_command(case, step, wd)
+		if os.path.exists(out):
+			# the table of an earlier step stays in place, made longer: it has to be replaced, not patched
+			with open(out, 'a') as f:
+				f.write(SEQ_LEFTOVER)
+		run = lambda: run_cli(args, out, proc=(how == 'proc'), keep=True)
+		obs = _in_thread(run) if how == 'thread' else run()
+		after = _tree_digest(wd, SEQ_SKIP)
+		recs.append({'obs': obs, 'changed': _digest_diff(before, after) if after != before else '', 'args': args})
+	return recs
+
+
+def _cliseq_child(conn, case, wd, start_method):
+	try:
+		# a child of the fork server would start its own workers (calc_file_signatures) through that server; the command
+		# under test starts them the way a plain Python process does
+		import multiprocessing
+		multiprocessing.set_start_method(start_method, force=True)
+		conn.send(('ok', cliseq_run(case, wd)))
+	except BaseException:          # reported to the parent
+		import traceback
+		conn.send(('error', traceback.format_exc()))
+	finally:
+		conn.close()
+
+
+def cliseq_isolated(ctx, case, wd):
+	"""cliseq_run in a process forked from a server that has imported gambit and has run nothing: what one sequence leaves
+	behind in module globals, caches, OpenMP settings ... cannot reach another sequence, so a violation found in a campaign is
+	reproduced by replaying that sequence alone.  (The in-process cli streams keep running all their cases in one process.)"""
+	if os.environ.get('VERIF_C16_SEQ_INPROCESS'):
+		ctx.count('cliseq:run-in-the-harness-process')
+		return cliseq_run(case, wd)
+	import multiprocessing as mp
+	if 'mp' not in _S:
+		c = mp.get_context('forkserver')
+		c.set_forkserver_preload(['gambit.cli', 'gambit.cli.dist', 'click.testing', 'h5py', 'numpy', 'harness.c16'])
+		_S['mp'] = c
+	c = _S['mp']
+	rd, wr = c.Pipe(duplex=False)
+	p = c.Process(target=_cliseq_child, args=(wr, case, wd, mp.get_context().get_start_method()))
+	p.start()
+	wr.close()
+	try:
+		if not rd.poll(900):
+			raise RuntimeError('cliseq: the sequence did not finish within 900 s')
+		res = rd.recv()
+	except EOFError:
+		res = ('error', 'the process running the sequence died without an answer')
+	finally:
+		rd.close()
+		p.join(30)
+		if p.is_alive():
+			p.kill()
+	if res[0] != 'ok':
+		raise RuntimeError('cliseq: ' + res[1])
+	ctx.count('cliseq:run-in-a-fresh-process')
+	return res[1]
+
+
+def cliseq_records(ctx, case, wd):
+	"""the records of the script, from a fresh process; should that machinery fail (not the script), from this process"""
+	try:
+		return cliseq_isolated(ctx, case, wd)
+	except (RuntimeError, OSError, EOFError) as e:
+		ctx.count('cliseq:fresh-process-failed-run-in-the-harness-process')
+		ctx.extra['cliseq_fresh_process_failure'] = str(e)[-600:]
+		for name in SEQ_SKIP[:2]:
+			if os.path.exists(os.path.join(wd, name)):
+				os.remove(os.path.join(wd, name))
+		seq_build(case, wd)
+		return cliseq_run(case, wd)
+
+
+def k_cliseq(ctx, cases):
+	"""a script of `gambit dist` runs over ONE pool of files, all in one process that has run nothing before (cliseq_isolated);
+	every good step is judged like a cli case; the input files must stay as they were; the same command on the same inputs
+	must write the same table"""
+	import json
+	plans, reqs, where = [], [], []
+	for ci, case in enumerate(cases):
+		wd = _workdir()
+		cur = [g for _, g in case['files']]
+		plan = []
+		for n, step in enumerate(case['steps']):
+			if step.get('rewrite'):
+				cur = list(cur)
+				cur[step['rewrite'][0]] = step['rewrite'][1]
+			sc, _ = seq_step_case(case, step, cur)
+			D, qrows = distances(sc)
+			sc['_D'], sc['_wd'] = D, wd
+			plan.append((step, sc, list(cur)))
+			if not step.get('bad'):
+				reqs.append((1601, [D, wire_params(sc, wd)]))
+				where.append((ci, n))
+		plans.append((case, wd, plan))
+	ans = dict(zip(where, ctx.model(reqs))) if ctx.model_ok and reqs else {}
+	for ci, (case, wd, plan) in enumerate(plans):
+		seq_build(case, wd)
+		recs = cliseq_records(ctx, case, wd)
+		seen = {}
+		good_nontrivial = 0
+		failed = None
+		for n, ((step, sc, cur), rec) in enumerate(zip(plan, recs)):
+			bad = step.get('bad')
+			obs = rec['obs']
+			ctx.count('cliseq:steps')
+			ctx.count('cliseq:how=' + step.get('how', 'cli'))
+			if step.get('rewrite'):
+				ctx.count('cliseq:file-rewritten-between-steps')
+			desc = f'step {n} of {len(plan)} ({"built to fail: " + bad if bad else "good"}): gambit {" ".join(a.replace(wd, "$WD") for a in rec["args"])}'
+			if rec['changed']:
+				failed = (f'{desc}: the command changed its input files: {rec["changed"]}', obs, None)
+				break
+			if bad:
+				ctx.count('cliseq:failing-step:' + bad)
+				if obs[0] == 'ok':
+					ctx.broke('correspondence cliseq (a step built to fail wrote a table)', f'{desc}: {str(obs)[:300]}: case {case}')
+				continue
+			exp = py_expected(sc)
+			if exp[0] != 'ok':
+				ctx.broke('harness cliseq (a good step without an expected table)', f'{desc}: {exp}: case {case}')
+				continue
+			if _table_nontrivial(exp, step['r'][0] == 'square'):
+				good_nontrivial += 1
+			ctx.count('cliseq:good-step-after-failing-step' if n and plan[n - 1][0].get('bad') else 'cliseq:good-step')
+			if obs != exp:
+				failed = (f'{desc}: {_first_diff(obs, exp)}', obs, exp)
+				break
+			m = ans.get((ci, n))
+			if m is not None and _model_table(m) != exp:
+				ctx.broke('correspondence cliseq (model of dist_cmd != implementation; expected table holds)',
+				          f'{desc}: model={str(_short(_model_table(m)))[:400]}: case {case}')
+			key = json.dumps([step['q'], step['r'], step.get('ks'), cur])
+			if key in seen:
+				ctx.count('cliseq:same-call-again')
+				if seen[key][1] != obs:
+					failed = (f'{desc}: the same command on the same inputs wrote another table at step {seen[key][0]}: {_first_diff(obs, seen[key][1])}', obs, seen[key][1])
+					break
+			seen[key] = (n, obs)
+		ctx.case(case, nontrivial=good_nontrivial >= 2)
+		if good_nontrivial >= 2:
+			ctx.count('cliseq:nontrivial')
+		if failed:
+			ctx.violation('cliseq', case, 'sequence of gambit dist commands over one pool of files (run alone in a fresh process): ' + failed[0],
+			              impl=_short(failed[1]), spec=_short(failed[2]) if failed[2] else None)
+
+
+# -- library level: the calls dist_cmd makes, on shared Python objects -----------------------------------------------
+
+def _lib_coll(case, c, wd, n, sigs):
+	"""-> (signatures object as the caller holds it, ids object as the caller holds it, closer | None)"""
+	import numpy as np
+	from gambit.kmers import KmerSpec
+	from gambit.sigs import SignatureList, SignatureArray, AnnotatedSignatures, SignaturesMeta, dump_signatures, load_signatures
+	kspec = KmerSpec(case['k'], case['prefix'])
+	dt = np.dtype(c['dtype']) if c.get('dtype') else kspec.index_dtype
+	arrs = [sigs[g].astype(dt) for g in c['g']]
+	form = c['form']
+	close = None
+	if form == 'list':
+		obj = list(arrs)
+	elif form == 'tuple':
+		obj = tuple(arrs)
+	elif form == 'siglist':
+		obj = SignatureList(arrs, kspec, dtype=dt)
+	elif form == 'sigarray':
+		obj = SignatureArray(arrs, kspec, dtype=dt)
+	elif form == 'h5':
+		path = os.path.join(wd, f'coll{n}.gs')
+		ids = np.array(list(c['ids']), dtype=object)
+		dump_signatures(path, AnnotatedSignatures(SignatureList(arrs, kspec, dtype=dt), ids, SignaturesMeta(id_attr='key')), 'hdf5')
+		obj = load_signatures(path)            # stays open for the whole sequence, as in dist_cmd
+		close = obj.close
+	else:
+		raise ValueError(form)
+	idf = c.get('idform', 'list')
+	if idf == 'own' and form == 'h5':
+		ids = obj.ids
+	elif idf == 'tuple':
+		ids = tuple(c['ids'])
+	elif idf == 'np_obj':
+		ids = np.empty(len(c['ids']), dtype=object)
+		ids[:] = c['ids']
+	elif idf == 'np_U':
+		ids = np.array(c['ids'], dtype=str) if c['ids'] else np.array([], dtype='U1')
+	else:
+		ids = list(c['ids'])
+	return obj, ids, close
+
+
+def _obs_sigs(obj):
+	"""what a caller can see of a signature collection: per signature dtype and bytes, k-mer parameters, own ids"""
+	import numpy as np
+	items = [(np.asarray(obj[i]).dtype.str, np.asarray(obj[i]).tobytes()) for i in range(len(obj))]
+	ks = getattr(obj, 'kmerspec', None)
+	extra = []
+	for name in ('values', 'bounds'):
+		a = getattr(obj, name, None)
+		if isinstance(a, np.ndarray):
+			extra.append((name, a.dtype.str, a.shape, a.tobytes()))
+	own = getattr(obj, 'ids', None)
+	return (type(obj).__name__, len(obj), items, (ks.k, bytes(ks.prefix)) if ks is not None else None, extra, _obs_ids(own) if own is not None else None,
+	        str(getattr(obj, 'dtype', '')))
+
+
+def _obs_ids(ids):
+	import numpy as np
+	if isinstance(ids, np.ndarray):
+		return ('ndarray', ids.dtype.str, ids.shape, [repr(x) for x in ids.tolist()])
+	return (type(ids).__name__, [repr(x) for x in ids])
+
+
+def _lib_expected(case, D, step):
+	"""-> (bit patterns of the matrix, expected table) for a good matrix / pairwise step"""
+	Q = case['colls'][step['q']]
+	if step['op'] == 'pairwise':
+		n = len(Q['g'])
+		bits = [[0 if a == b else D[Q['g'][min(a, b)]][Q['g'][max(a, b)]] for b in range(n)] for a in range(n)]
+		R = Q
+	else:
+		R = case['colls'][step['r']]
+		bits = [[D[g][h] for h in R['g']] for g in Q['g']]
+	table = [[''] + [str(i) for i in R['ids']]] + [[str(i)] + [py_fmt4(b) for b in row] for i, row in zip(Q['ids'], bits)]
+	return bits, ('ok', table)
+
+
+class _Raiser:
+	"""row ids handed over as an iterable that raises part-way (an error of the caller's own container)"""
+	def __init__(self, ids, at):
+		self.ids, self.at = list(ids), at
+
+	def __iter__(self):
+		for n, x in enumerate(self.ids):
+			if n == self.at:
+				raise RuntimeError('raised by the caller\'s container')
+			yield x
+
+	def __len__(self):
+		return len(self.ids)
+
+
+def k_libseq(ctx, cases):
+	"""the calls dist_cmd makes (jaccarddist_matrix / jaccarddist_pairwise, then dump_dmat_csv; get_sequence_files) as a script
+	over ONE pool of Python objects; judged per step by the expected table and bit patterns, plus: caller's objects unmodified,
+	earlier results unchanged, same call same result"""
+	import io
+	import json
+	import pathlib
+	import numpy as np
+	from gambit.metric import jaccarddist, jaccarddist_matrix, jaccarddist_pairwise
+	from gambit.cluster import dump_dmat_csv
+	from gambit.cli.common import get_sequence_files
+	prepared, reqs, where = [], [], []
+	for ci, case in enumerate(cases):
+		k, prefix = case['k'], case['prefix']
+		sigs = [genome_sig(g, k, prefix) for g in case['genomes']]
+		D = [[f32_bits(jaccarddist(a, b)) for b in sigs] for a in sigs]
+		exps = {}
+		for n, step in enumerate(case['steps']):
+			if step['op'] in ('matrix', 'pairwise'):
+				exps[n] = _lib_expected(case, D, step)
+				if not step.get('bad'):
+					bits, (_, table) = exps[n]
+					reqs.append((1605, [[[[b] for b in row] for row in bits], [to_cp(r[0]) for r in table[1:]], [to_cp(c) for c in table[0][1:]]]))
+					where.append((ci, n))
+		prepared.append((case, sigs, exps))
+	ans = dict(zip(where, ctx.model(reqs))) if ctx.model_ok and reqs else {}
+	for ci, (case, sigs, exps) in enumerate(prepared):
+		wd = _workdir()
+		closers = []
+		failed = None
+		try:
+			pool = []
+			for n, c in enumerate(case['colls']):
+				obj, ids, close = _lib_coll(case, c, wd, n, sigs)
+				pool.append((obj, ids))
+				if close:
+					closers.append(close)
+			paths = [[(pathlib.Path(p) if pl.get('as') == 'path' else p) for p in pl['paths']] for pl in case.get('paths', [])]
+			paths = [tuple(p) if pl.get('as') == 'tuple' else p for p, pl in zip(paths, case.get('paths', []))]
+			bufs = {}
+			sio = io.StringIO(newline='')
+			text = open(os.path.join(wd, 'stream.csv'), 'w+', newline='', encoding='utf-8')
+			closers.append(text.close)
+			snap = lambda: ([(_obs_sigs(o), _obs_ids(i)) for o, i in pool], [(type(p).__name__, [repr(x) for x in p]) for p in paths])
+			before = snap()
+			results = []          # (step number, array returned, its bytes, buffer key | None)
+			seen = {}
+			good = 0
+			for n, step in enumerate(case['steps']):
+				bad = step.get('bad')
+				op = step['op']
+				desc = f'step {n} of {len(case["steps"])}: {json.dumps(step)}'
+				ctx.count('libseq:steps')
+				ctx.count('libseq:op=' + op)
+				call = _in_thread if step.get('thread') else (lambda f: f())
+				if step.get('thread'):
+					ctx.count('libseq:second-thread')
+				if op == 'seqfiles':
+					pl = case['paths'][step['paths']]
+					src = paths[step['paths']]
+					if step.get('form') == 'listfile':
+						lf = os.path.join(wd, f'paths{step["paths"]}.txt')
+						with open(lf, 'w', encoding='utf-8') as f:
+							f.write('\n'.join(pl['paths']) + '\n')
+						ids, files = call(lambda: get_sequence_files(None, lf, 'some/dir'))
+						exp_paths = [os.path.join('some/dir', p) for p in pl['paths']]
+					else:
+						ids, files = call(lambda: get_sequence_files(src))
+						exp_paths = list(pl['paths'])
+					exp = [py_label(p) for p in pl['paths']]
+					if list(ids) != exp or [os.fspath(f) for f in files] != [os.fspath(pathlib.Path(p)) for p in exp_paths]:
+						failed = (f'{desc}: get_sequence_files gave ids {ids!r}, files {[os.fspath(f) for f in files]!r}; expected ids {exp!r}', ids, exp)
+						break
+					# the lists handed back belong to the caller: changing them must not reach a later call
+					ids.reverse()
+					ids.append('changed-by-the-caller')
+					del files[:]
+					good += 1
+				else:
+					Qo, Qi = pool[step['q']]
+					Ro, Ri = pool[step['r']] if op == 'matrix' else (Qo, Qi)
+					bits, exp = exps[n]
+					shape = (len(bits), len(bits[0]) if bits else len(Ri))
+					kw = {}
+					key = None
+					if step.get('out') == 'new':
+						kw['out'] = np.full(shape, np.float32(0.4321), dtype=np.float32)
+					elif step.get('out') == 'reuse':
+						key = shape
+						kw['out'] = bufs.setdefault(shape, np.full(shape, np.float32(0.4321), dtype=np.float32))
+					if bad == 'badout':
+						kw['out'] = np.zeros((shape[0] + 1, shape[1]), dtype=np.float32)
+					if op == 'matrix' and step.get('chunk'):
+						kw['chunksize'] = step['chunk']
+					qarg = Qo
+					if bad == 'baddtype':
+						items = [Qo[i] for i in range(len(Qo))]
+						items.insert((len(items) + 1) // 2, np.array([0.5, 1.5]))
+						qarg = items
+					try:
+						if op == 'matrix':
+							dmat = call(lambda: jaccarddist_matrix(qarg, Ro, **kw))
+						else:
+							dmat = call(lambda: jaccarddist_pairwise(qarg, **kw))
+						raised = None
+					except Exception as e:      # noqa: judged below
+						dmat, raised = None, e
+					if bad in ('baddtype', 'badout'):
+						ctx.count('libseq:failing-step:' + bad)
+						# (a wrong element is only looked at when there is something to compare it with)
+						if raised is None and (bad == 'badout' or (len(Ro) if op == 'matrix' else len(Qo))):
+							ctx.broke('correspondence libseq (a call built to fail returned)', f'{desc}: case {case}')
+					elif raised is not None:
+						failed = (f'{desc}: raised {type(raised).__name__}: {raised}', None, exp)
+						break
+					else:
+						got = np.asarray(dmat)
+						if got.dtype != np.float32 or got.shape != shape or got.view(np.uint32).tolist() != bits:
+							failed = (f'{desc}: the matrix returned is not the expected one (float32 bit patterns)',
+							          got.view(np.uint32).tolist() if got.dtype == np.float32 else repr(got), bits)
+							break
+						if 'out' in kw and got.size and not np.shares_memory(got, kw['out']):
+							failed = (f'{desc}: out= was given and the matrix returned is another array', None, None)
+							break
+						# an out= buffer handed over again is overwritten by documentation; every other earlier result must be as it was
+						results[:] = [r for r in results if r[3] is None or r[3] != key]
+						stored = got.tobytes()
+						# dump
+						rows_arg = Qi
+						if bad == 'badids':
+							rows_arg = list(Qi) + ['one-too-many']
+						elif bad == 'raiseiter':
+							rows_arg = _Raiser(Qi, len(Qi) // 2)
+						dest = step.get('dest', 'path')
+						start = None
+						if dest == 'sio':
+							target = sio
+							start = len(sio.getvalue())
+						elif dest == 'text':
+							target = text
+							text.flush()
+							start = text.tell()
+						elif dest == 'pathlib':
+							target = pathlib.Path(wd, 'lib.csv')
+						else:
+							target = os.path.join(wd, 'lib.csv')
+						try:
+							call(lambda: dump_dmat_csv(target, dmat, rows_arg, Ri))
+							raised = None
+						except Exception as e:      # noqa: judged below
+							raised = e
+						if dmat.tobytes() != stored:
+							failed = (f'{desc}: dump_dmat_csv changed the matrix it was given', np.asarray(dmat).view(np.uint32).tolist(), bits)
+							break
+						results.append((n, dmat, stored, key))
+						if bad in ('badids', 'raiseiter'):
+							ctx.count('libseq:failing-step:' + bad)
+							if raised is None and (bad == 'badids' or len(Qi)):
+								ctx.broke('correspondence libseq (a call built to fail returned)', f'{desc}: case {case}')
+						elif raised is not None:
+							failed = (f'{desc}: dump_dmat_csv raised {type(raised).__name__}: {raised}', None, exp)
+							break
+						else:
+							if dest == 'sio':
+								if sio.closed:
+									failed = (f'{desc}: dump_dmat_csv closed the caller\'s file object', None, None)
+									break
+								obs = ('ok', [row for row in csv.reader(io.StringIO(sio.getvalue()[start:], newline=''))])
+							elif dest == 'text':
+								if text.closed:
+									failed = (f'{desc}: dump_dmat_csv closed the caller\'s file object', None, None)
+									break
+								text.flush()
+								text.seek(start)
+								obs = ('ok', [row for row in csv.reader(text)])
+								text.seek(0, 2)
+							else:
+								obs = _read_csv(os.path.join(wd, 'lib.csv'))
+							if obs != exp:
+								failed = (f'{desc}: {_first_diff(obs, exp)}', obs, exp)
+								break
+							m = ans.get((ci, n))
+							if m is not None and _model_table(m) != exp:
+								ctx.broke('correspondence libseq (model of dump_dmat_csv != implementation; expected table holds)', f'case {case}: {desc}')
+							good += 1
+							sk = json.dumps([op, step['q'], step.get('r')])
+							if sk in seen:
+								ctx.count('libseq:same-call-again')
+								if seen[sk] != (bits, obs):
+									failed = (f'{desc}: the same call on the same objects gave another result than before', obs, seen[sk][1])
+									break
+							seen[sk] = (bits, obs)
+				after = snap()
+				if after != before:
+					which = [f'collection {i}' for i, (a, b) in enumerate(zip(before[0], after[0])) if a != b] + \
+						[f'path list {i}' for i, (a, b) in enumerate(zip(before[1], after[1])) if a != b]
+					failed = (f'{desc}: the call changed an object of the caller: {", ".join(which)}', None, None)
+					break
+				stale = [r[0] for r in results if np.asarray(r[1]).tobytes() != r[2]]
+				if stale:
+					failed = (f'{desc}: the matrix returned by step {stale[0]} changed afterwards (a result aliases hidden state)', None, None)
+					break
+				if bad:
+					ctx.count('libseq:failing-steps')
+			nontriv = good >= 2 and any(len(c['g']) >= 2 for c in case['colls'])
+			ctx.case(case, nontrivial=nontriv)
+			if nontriv:
+				ctx.count('libseq:nontrivial')
+		finally:
+			for c in closers:
+				try:
+					c()
+				except Exception:
+					pass
+		if failed:
+			ctx.violation('libseq', case, 'sequence of library calls (distance matrix, CSV writer, sequence-file ids) over one pool of objects: ' + failed[0],
+			              impl=_short(failed[1]) if isinstance(failed[1], tuple) else failed[1], spec=_short(failed[2]) if isinstance(failed[2], tuple) else failed[2])
+
+
+KINDS = {'cli': k_cli, 'fmt': k_fmt, 'dump': k_dump, 'label': k_label, 'ids': k_ids, 'cliseq': k_cliseq, 'libseq': k_libseq}
 
 
 # ------------------------------------------------------------------------------------------------
@@ -1346,6 +2116,12 @@ def dump_forms_stream(ctx, rng):
 		if rng.random() < 0.08 and nc > 0 and form['layout'] != 'rows':
 			rows = rows + [rows[-1] if rows else '7']
 			ctx.count('stream:malformed')
+		elif nr == nc and rng.random() < 0.5:
+			# one object as row ids and column ids (what --square does)
+			form['cols'] = form['rows']
+			cols = list(rows)
+			form['alias'] = True
+			ctx.count('stream:dump-forms-one-ids-object')
 		ctx.count('stream:dump-forms')
 		yield 'dump', {'m': m, 'rows': rows, 'cols': cols, 'form': form}
 
@@ -1393,6 +2169,238 @@ def audit_streams(ctx, rng):
 	yield from ids_stream(ctx, rng)
 
 
+# ------------------------------------------------------------------------------------------------
+# sequence streams (state and aliasing audit)
+# ------------------------------------------------------------------------------------------------
+
+SEQ_IDS = ['a', 'b', 'g 1', 'x,y', '7', 'a.fa', 's.t']
+
+
+SEQ_THEMES = ('orders', 'dbs', 'params', 'dirs', 'rewrite', 'fail', 'repeat', 'sigfiles')
+
+
+def rand_cliseq(rng, theme=None, proc=False):
+	"""a pool of files (several with the same derived label, a second directory with the same names and other contents,
+	signature files / databases of different sizes with ids in common, two k-mer parameter sets that collide in k or in the
+	prefix) and a script of 2..6 commands over it, made of blocks: 'orders' (two sources in both roles), 'dbs' (one query set
+	against two databases and back), 'params' (the same sequence files under -k/-p A, B, none), 'dirs' (one list file against two
+	directories and back), 'rewrite' (a file gets another content between two runs), 'fail' (a step broken in one way -- with
+	other parameters or an older file content -- just before its good twin), 'repeat' (a step verbatim after another one),
+	'sigfiles' (two signature files with ids in common against the same references)"""
+	genomes = rand_genomes(rng, rng.randint(4, 7))
+	ng = len(genomes)
+	kspecs = [list(x) for x in rng.choice(KS_PAIRS)]
+	if rng.random() < 0.5:
+		kspecs.reverse()
+	base = rng.choice(['a', 'g 1', 'x,y', 's.t'])
+	names = [base + '.fa', 'sub/' + base + '.fasta.gz', 'b.fna', 'c.fa.gz', 'sub/d.fasta', base + '2.frn', 'x.fa/' + base]
+	rng.shuffle(names)
+	files = [[n, rng.randrange(ng)] for n in names[:rng.randint(3, 6)]]
+	nf = len(files)
+	lists = []
+	for size in rng.sample([1, 2, 3, 4, 5], 2):
+		idx = [rng.randrange(nf) for _ in range(size)]
+		lists.append({'text': make_list(rng, [[files[i][0], 0] for i in idx], 0)})
+
+	def items(n):
+		ids = [rng.choice(SEQ_IDS) if rng.random() < 0.7 else rand_id(rng, set()) for _ in range(n)]
+		return [[i, rng.randrange(ng)] for i in ids]
+	sizes = rng.sample([1, 2, 3, 4, 5, 6], 5)
+	sig_ks = [0, 0, 1]
+	rng.shuffle(sig_ks)
+	sigs = [{'items': items(sizes[i]), 'ks': sig_ks[i]} for i in range(3)]
+	for s in sigs:
+		if rng.random() < 0.3:
+			vary_store(rng, s, *kspecs[s['ks']])
+	dbs = [{'items': items(sizes[3]), 'ks': 0}, {'items': items(sizes[4]), 'ks': rng.choice([0, 0, 1])}]
+	case = {'genomes': genomes, 'kspecs': kspecs, 'files': files, 'dir2': [rng.randrange(ng) for _ in files], 'lists': lists, 'sigs': sigs, 'dbs': dbs}
+
+	def src_ks(step):
+		return seq_step_case(case, step, [g for _, g in files])[1]
+
+	def rand_src(ways):
+		way = rng.choice(ways)
+		if way == 'files':
+			return ['files', [rng.randrange(nf) for _ in range(rng.choice([1, 2, 2, 3, 4]))]]
+		if way == 'list':
+			return ['list', rng.randrange(2)] + ([1] if rng.random() < 0.3 else [])
+		if way == 'sigs':
+			return ['sigs', rng.randrange(3)]
+		return ['db', rng.randrange(2)] if way == 'db' else ['square']
+
+	def fix_ks(step):
+		"""-k/-p: not given, or the parameters the signature sources have (a mismatch is C14's subject)"""
+		ks = src_ks(step)
+		if len(set(ks)) > 1:
+			return None
+		step['ks'] = rng.choice([None, ks[0]]) if ks else rng.choice([None, 0, 1])
+		return step
+
+	def rand_step(qways=('files', 'list', 'sigs'), rways=('files', 'list', 'sigs', 'db', 'square')):
+		while True:
+			st = fix_ks({'q': rand_src(qways), 'r': rand_src(rways)})
+			if st:
+				return st
+
+	def a_file(step):
+		"""a file of directory p the step reads (None: it reads none)"""
+		for x in (step['q'], step['r']):
+			if x[0] == 'files':
+				return rng.choice(x[1])
+			if x[0] == 'list' and len(x) == 2 and py_lines(lists[x[1]]['text']):
+				return [f[0] for f in files].index(rng.choice(py_lines(lists[x[1]]['text'])))
+		return None
+
+	def broken(s, g):
+		"""step s broken in one way, to run just before the good step g"""
+		kinds = ['usage', 'outdir', 'outdir', 'outdir'] + (['missing'] * 2 if 'list' in (s['q'][0], s['r'][0]) else []) + \
+			(['truncgz'] * 2 if 'files' in (s['q'][0], s['r'][0]) else []) + (['truncsigs', 'kspec'] if src_ks(s) else [])
+		b = {k: v for k, v in s.items() if k != 'rewrite'}
+		if not src_ks(s) and rng.random() < 0.7:
+			b['ks'] = rng.choice([k for k in (None, 0, 1) if k != g.get('ks')])     # the failing call differs from the next good one
+		return dict(b, bad=rng.choice(kinds), badside=rng.choice(['q', 'r']))
+
+	def block(th):
+		if th == 'orders':
+			s = rand_step(rways=('files', 'list', 'sigs'))
+			return [s, dict(s, q=s['r'], r=s['q'])] + ([dict(s)] if rng.random() < 0.3 else [])
+		if th == 'dbs':
+			a = rng.randrange(2)
+			while True:
+				s = fix_ks({'q': rand_src(('files', 'list', 'sigs')), 'r': ['db', a]})
+				t = s and fix_ks(dict(s, r=['db', 1 - a]))
+				if s and t:
+					return [s, t, dict(s)]
+		if th == 'params':
+			s = rand_step(('files', 'list'), ('files', 'list', 'square'))
+			order = rng.sample([None, 0, 1], 3)
+			if order[-1] is not None and rng.random() < 0.7:
+				order = order[1:] + [None]
+			return [dict(s, ks=k) for k in order]
+		if th == 'dirs':
+			s = rand_step(('list',)) if rng.random() < 0.5 else rand_step(rways=('list',))
+			flip = lambda src: ['list', src[1]] + ([] if len(src) > 2 and src[2] else [1]) if src[0] == 'list' else src
+			return [s, dict(s, q=flip(s['q']), r=flip(s['r']))] + ([dict(s)] if rng.random() < 0.6 else [])
+		if th == 'rewrite':
+			while True:
+				s = rand_step()
+				fi = a_file(s)
+				if fi is not None:
+					return [s, dict(s, rewrite=[fi, rng.randrange(ng)])]
+		if th == 'fail':
+			g = rand_step()
+			fi = a_file(g)
+			if fi is not None and rng.random() < 0.4:
+				return [g, broken(g, g), dict(g, rewrite=[fi, rng.randrange(ng)])]
+			return [broken(g, g), g]
+		if th == 'repeat':
+			s = rand_step()
+			return [s, rand_step(), dict(s)]
+		if th == 'sigfiles':
+			same = [i for i in range(3) if sigs[i]['ks'] == 0]
+			rng.shuffle(same)
+			while True:
+				s = fix_ks({'q': ['sigs', same[0]], 'r': rand_src(('files', 'list', 'sigs', 'db', 'square'))})
+				if s:
+					return [s, dict(s, q=['sigs', same[1]])] + ([dict(s)] if rng.random() < 0.4 else [])
+		raise ValueError(th)
+	steps = [rand_step()] if rng.random() < 0.5 else []
+	for th in ([theme] if theme else []) + rng.sample(SEQ_THEMES, 2):
+		b = block(th)
+		if len(steps) + len(b) <= 6:
+			steps += b
+	if len(steps) < 2:
+		steps.append(rand_step())
+	if len(steps) <= 5 and not any(s.get('bad') for s in steps) and rng.random() < 0.6:
+		# one more failing call: a step of the script, broken, before another one
+		n = rng.randrange(len(steps))
+		steps.insert(n, broken(steps[n] if rng.random() < 0.6 else rng.choice(steps), steps[n]))
+	steps = [dict(s) for s in steps]
+	for s in steps:
+		s['cores'] = rng.choice([None, None, 1, 2, 3, 4])
+		s['out'] = rng.choice([0, 0, 1])
+		if rng.random() < 0.15:
+			s['how'] = 'thread'
+	if proc:
+		rng.choice(steps)['how'] = 'proc'
+	case['steps'] = steps
+	return case
+
+
+def rand_libseq(rng):
+	"""a pool of signature collections (plain list / tuple, SignatureList, SignatureArray, an open signature file) of
+	different sizes and value types with their id containers, and a script of 2..6 library calls over it"""
+	k, prefix = rng.choice(KSPECS)
+	genomes = rand_genomes(rng, rng.randint(3, 6))
+	if rng.random() < 0.3:
+		genomes += syn_genomes(rng)[:2]
+		k, prefix = rng.choice([(6, 'AT'), (7, 'ATG'), (8, 'GA')])
+	ng = len(genomes)
+	colls = []
+	for size in rng.sample([0, 1, 2, 3, 3, 4, 5], rng.randint(2, 4)):
+		form = rng.choice(['list', 'tuple', 'siglist', 'sigarray', 'sigarray', 'h5', 'h5'])
+		c = {'g': [rng.randrange(ng) for _ in range(size)], 'form': form,
+		     'ids': [rng.choice(SEQ_IDS) if rng.random() < 0.6 else rand_id(rng, set()) for _ in range(size)]}
+		if rng.random() < 0.4:
+			c['dtype'] = rng.choice(wider_dtypes(k, prefix))
+		c['idform'] = rng.choice(['own', 'own', 'list']) if form == 'h5' else rng.choice(['list', 'tuple', 'np_obj', 'np_U'])
+		colls.append(c)
+	if not any(len(c['g']) >= 2 for c in colls):
+		colls[0]['g'] = [rng.randrange(ng) for _ in range(3)]
+		colls[0]['ids'] = ['a', 'b', 'a']
+	nc = len(colls)
+	used = set()
+	paths = [{'paths': [rng.choice(['', '/tmp/', 'a/b/', './']) + rand_name(rng, used, list_ok=True) for _ in range(rng.randint(1, 4))],
+	          'as': rng.choice(['str', 'path', 'tuple'])} for _ in range(2)]
+
+	def rand_step():
+		r = rng.random()
+		if r < 0.12:
+			return {'op': 'seqfiles', 'paths': rng.randrange(2), 'form': rng.choice(['explicit', 'explicit', 'listfile'])}
+		st = {'op': 'pairwise', 'q': rng.randrange(nc)} if r < 0.4 else {'op': 'matrix', 'q': rng.randrange(nc), 'r': rng.randrange(nc)}
+		st['dest'] = rng.choice(['path', 'path', 'pathlib', 'sio', 'sio', 'text'])
+		if rng.random() < 0.4:
+			st['out'] = rng.choice(['new', 'reuse', 'reuse'])
+		if st['op'] == 'matrix' and rng.random() < 0.2:
+			st['chunk'] = rng.randint(1, 3)
+		return st
+	steps = [rand_step() for _ in range(rng.randint(2, 4))]
+	mats = [s for s in steps if s['op'] == 'matrix' and s['q'] != s['r']]
+	if mats and rng.random() < 0.6:
+		s = rng.choice(mats)
+		steps.insert(rng.randint(steps.index(s) + 1, len(steps)), dict(s, q=s['r'], r=s['q']))
+	if rng.random() < 0.6:
+		steps.append(dict(rng.choice(steps)))
+	steps = steps[:5]
+	if rng.random() < 0.6:
+		cand = [n for n, s in enumerate(steps) if s['op'] != 'seqfiles']
+		if cand:
+			n = rng.choice(cand)
+			s = steps[n]
+			kinds = ['badout', 'badids'] + (['raiseiter'] if colls[s['q']]['g'] else []) + (['baddtype'] * 2 if colls[s['r' if s['op'] == 'matrix' else 'q']]['g'] else [])
+			steps.insert(n, dict(s, bad=rng.choice(kinds)))
+	for s in steps:
+		if rng.random() < 0.12:
+			s['thread'] = True
+	return {'k': k, 'prefix': prefix, 'genomes': genomes, 'colls': colls, 'paths': paths, 'steps': steps}
+
+
+def seq_streams(ctx, rng):
+	for n in range(ctx.pick(16, 160)):
+		ctx.count('stream:seq-cli')
+		yield 'cliseq', rand_cliseq(rng, theme=SEQ_THEMES[n % len(SEQ_THEMES)], proc=(n % ctx.pick(16, 7) == 3))
+	for _ in range(ctx.pick(160, 2000)):
+		ctx.count('stream:seq-lib')
+		yield 'libseq', rand_libseq(rng)
+
+
+def finish(ctx):
+	"""report order: a cliseq violation is replayed alone in a fresh process and shows itself there; a cli case found in the
+	same campaign may owe its failure to what EARLIER cases left in the harness process (its single-case replay then shows
+	nothing).  The sequence violations go first."""
+	ctx.violations.sort(key=lambda v: 0 if v.get('kind') == 'cliseq' else 1)       # stable
+
+
 def generate(ctx):
 	rng = ctx.rng
 	ctx.rule(RULE)
@@ -1426,7 +2434,9 @@ def generate(ctx):
 		ctx.count('stream:cli-testdb')
 		yield 'cli', c
 	yield from audit_streams(ctx, rng)
+	yield from seq_streams(ctx, rng)
 	# malformed command lines
 	for c in malformed(rng):
 		ctx.count('stream:malformed')
 		yield 'cli', c
+
